@@ -1221,7 +1221,8 @@ OCTET_STRING_per_get_characters(asn_per_data_t *po, uint8_t *buf,
 		(int)units, lb, ub, unit_bits);
 
 	/* X.691: 27.5.4 */
-	if((unsigned long)ub <= ((unsigned long)2 << (unit_bits - 1))) {
+	if(unit_bits > 0
+	   && (unsigned long)ub <= ((unsigned long)2 << (unit_bits - 1))) {
 		/* Decode without translation */
 		lb = 0;
 	} else if(pc && pc->code2value) {
@@ -1285,7 +1286,8 @@ OCTET_STRING_per_put_characters(asn_per_outp_t *po, const uint8_t *buf,
 		(int)units, lb, ub, unit_bits, bpc);
 
 	/* X.691: 27.5.4 */
-	if((unsigned long)ub <= ((unsigned long)2 << (unit_bits - 1))) {
+	if(unit_bits > 0
+	   && (unsigned long)ub <= ((unsigned long)2 << (unit_bits - 1))) {
 		/* Encode as is */
 		lb = 0;
 	} else if(pc && pc->value2code) {
@@ -1480,6 +1482,10 @@ OCTET_STRING_decode_uper(const asn_codec_ctx_t *opt_codec_ctx,
 		                          &repeat);
 		if(raw_len < 0) RETURN(RC_WMORE);
 		if(raw_len == 0 && st->buf) break;
+		if(unit_bits == 0 && repeat) {
+			/* Protect from zero-width characters compression bombs. */
+			RETURN(RC_FAIL);
+		}
 
 		ASN_DEBUG("Got PER length eb %ld, len %ld, %s (%s)",
 			(long)csiz->effective_bits, (long)raw_len,
